@@ -359,9 +359,10 @@ func VerifWrReset() {
 	big := vwBig(setting, tinyW)
 	data := vwData((K1+K2)*big + 64)
 	if verifrt.Param("REPLAY") == 1 {
-		// period 10: the bytes of a short first stream come back at the same and at later
-		// positions of the second one
-		data = vwDataP((K1+K2)*big+64, 10)
+		data = vwNoise((K1+K2)*big + 64)
+		// 4-byte groups from positions 1 and 4 of the opening come back after the point
+		// where a short second stream is flushed, close enough for the tiny window
+		copy(data, "0123456789ab456789abUV1234WXYZ")
 	}
 	old := &vwSink{}
 	if verifrt.Pick("oldfails", 2) == 1 {
@@ -414,6 +415,11 @@ func VerifWrReset() {
 		case opClose:
 			e1, e2 = used.Close(), fresh.Close()
 		}
+		verifrt.Assert((e1 == nil) == (e2 == nil), "C12:error-differs")
+	}
+	if verifrt.Param("REPLAY") == 1 {
+		// tokens are only encoded at a block end: finish both streams
+		e1, e2 := used.Close(), fresh.Close()
 		verifrt.Assert((e1 == nil) == (e2 == nil), "C12:error-differs")
 	}
 	verifrt.Cover("compared")
@@ -484,4 +490,68 @@ func VerifWrGaps() {
 	verifrt.Assert(e1 == nil && e2 == nil, "C01:write-fails")
 	verifrt.Cover("closed")
 	vwCheckStream(sink.b, data, false, "C01", 0)
+}
+
+// VerifWrLookahead (C01/C10): a state only the accelerated match finders reach.
+// The portable lz77 always leaves 8 bytes of look-ahead unprocessed in a
+// non-flushing step (idx < end); the assembly kernels may consume the buffer
+// to its end (idx == end) with tokens still pending. The state is built from a
+// real one by turning j of the look-ahead bytes into literal tokens, exactly as
+// a match finder that found no match would; then the stream is flushed and/or
+// closed (and possibly continued) and must still decode to everything written.
+func VerifWrLookahead() {
+	setting := verifrt.Pick("setting", 7)
+	tinyW := verifrt.Param("W")
+	pre := verifrt.Param("PRE") // upper bound on the bytes written first
+	T := verifrt.Param("T")     // stop right after the T-th non-flushing compression step (buffer just filled)
+	data := vwData(pre + 64)
+	sink := &vwSink{}
+	w := vwNew(setting, sink, tinyW)
+	c := w.lc.(*dynCompressor)
+	written := 0
+	for written < pre && T > 0 {
+		before := c.idx
+		_, e := w.Write(data[written : written+1])
+		verifrt.Assert(e == nil, "C01:write-fails")
+		written++
+		if c.idx > before {
+			T--
+		}
+	}
+	verifrt.Assume(T == 0)
+	j := int(verifrt.U8())
+	verifrt.Assume(j <= c.end-c.idx)
+	j = verifrt.Concretize(j)
+	for k := 0; k < j; k++ {
+		lit := c.buffer[c.idx]
+		c.tokens = append(c.tokens, newToken(uint32(lit), InvalidDist, 0))
+		c.hist.literalCodes[lit]++
+		c.idx++
+		c.processed++
+	}
+	verifrt.Observe("j", uint64(j))
+	verifrt.Observe("left", uint64(c.end-c.idx))
+	var e error
+	op := int(verifrt.U8())
+	verifrt.Assume(op < 4)
+	op = verifrt.Concretize(op)
+	switch op {
+	case 0:
+	case 1:
+		verifrt.Assert(w.Flush() == nil, "C01:write-fails")
+		vwCheckStream(sink.b, data[:written], true, "C10", 0)
+	case 2:
+		_, e = w.Write(data[written : written+5])
+		verifrt.Assert(e == nil, "C01:write-fails")
+		written += 5
+	case 3:
+		_, e = w.Write(data[written : written+5])
+		verifrt.Assert(e == nil, "C01:write-fails")
+		written += 5
+		verifrt.Assert(w.Flush() == nil, "C01:write-fails")
+		vwCheckStream(sink.b, data[:written], true, "C10", 0)
+	}
+	verifrt.Assert(w.Close() == nil, "C01:write-fails")
+	verifrt.Cover("closed")
+	vwCheckStream(sink.b, data[:written], false, "C01", 0)
 }
